@@ -15,12 +15,30 @@ theorem lemma_capture_nocheck (c : Sre) (s : St) : capture false c s = (s, enter
   unfold enter capture; cases s.active <;> simp
 
 theorem lemma_enter_active (fl : Bool) (s : St) (a : ExcId) (h : s.active = some a) :
-    enter (Sre.init fl) s = ⟨fl, some (s.heap.cls a), some a, s.heap.tb a⟩ := by
+    enter (Sre.init fl) s = ⟨fl, some (s.heap.cls a), some a, s.heap.tb a, .scenario⟩ := by
   simp [enter, capture, h, Sre.init]
 
 theorem lemma_enter_active_any (c : Sre) (s : St) (a : ExcId) (h : s.active = some a) :
     enter c s = { c with type_ := some (s.heap.cls a), value := some a, tb := s.heap.tb a } := by
   simp [enter, capture, h]
+
+theorem lemma_enter_reraise_any (c : Sre) (s : St) : (enter c s).reraise = c.reraise := by
+  unfold enter capture; cases s.active <;> simp
+
+theorem lemma_enter_sink (c : Sre) (s : St) : (enter c s).sink = c.sink := by
+  unfold enter capture; cases s.active <;> simp
+
+theorem lemma_force_sink (c : Sre) (s : St) : (force c s).2.1.sink = c.sink := by
+  obtain ⟨rr, ty, v, tb, sk⟩ := c
+  cases v <;> cases ty <;> simp [force, raiseSaved, St.raiseFresh]
+  split <;> simp [raiseSaved]
+
+theorem lemma_exitCtx_sink (c : Sre) (s : St) (o : Compl) : (exitCtx c s o).sink = c.sink := by
+  cases o with
+  | raised e => rfl
+  | ok => simp only [exitCtx]; split
+          · exact lemma_force_sink c s
+          · rfl
 
 theorem lemma_enter_reraise (fl : Bool) (s : St) : (enter (Sre.init fl) s).reraise = fl := by
   unfold enter capture; cases s.active <;> simp [Sre.init]
@@ -32,7 +50,7 @@ theorem lemma_mkFilter_eq (form : FilterForm) (p : Pred) : mkFilter form p = ⟨
   cases form <;> rfl
 
 theorem lemma_force_excInfo (c : Sre) (s : St) : (force c s).1.excInfo = s.excInfo := by
-  obtain ⟨rr, ty, v, tb⟩ := c
+  obtain ⟨rr, ty, v, tb, sk⟩ := c
   cases v <;> cases ty <;> simp [force, raiseSaved, St.raiseFresh]
   split <;> simp
 
@@ -131,6 +149,43 @@ theorem exec_excInfo_restored (b : Body) (c : Sre) (s : St) : (exec b c s).st.ex
     · exact ih _ _
     · exact ih _ _
 
+/-- **A context keeps its logger**: no program changes which logger object a context reports to. -/
+theorem exec_logger_kept (b : Body) (c : Sre) (s : St) : (exec b c s).ctx.sink = c.sink := by
+  induction b generalizing c s with
+  | nop => rfl
+  | raiseCatch e => rfl
+  | raiseNew e => rfl
+  | setReraise b => rfl
+  | nest fl body ih => simp [exec]
+  | forceReraise caught => simp only [exec]; exact lemma_force_sink c s
+  | capture =>
+    simp only [exec, Oslo.Exc.capture]
+    cases h : s.active <;> simp [St.raiseFresh]
+  | seq a b iha ihb =>
+    simp only [exec]
+    split
+    · rw [ihb, iha]
+    · exact iha _ _
+  | handle e h ih => simp only [exec]; exact ih _ _
+  | filterCtx form p body ih => simp only [exec]; exact ih _ _
+  | filterCall form p e => simp [exec]
+  | rpoe rm body ih =>
+    simp only [exec]
+    split
+    · exact ih _ _
+    · exact ih _ _
+  | rwc x => simp [exec]
+  | nestThen fl body late _ _ => simp only [exec]; split <;> simp
+  | handleNestThen e fl body late _ _ => simp only [exec]; split <;> simp
+  | enterCur body ih =>
+    simp only [exec]
+    rw [lemma_exitCtx_sink, ih, lemma_enter_sink]
+  | swallow body ih =>
+    simp only [exec]
+    split
+    · exact ih _ _
+    · exact ih _ _
+
 /-! ### the saved triple -/
 
 /-- **Saved-exception invariant.**  No body operation other than a direct `capture` /
@@ -200,7 +255,7 @@ theorem sre_exit_reraises_saved (f : Frame) (c : Sre) (s : St) (v : ExcId)
     (exitSre f c s .ok).1.log = s.log ∧ (exitSre f c s .ok).1.path = s.path ∧
     (exitSre f c s .ok).1.heap.next = s.heap.next ∧
     (exitSre f c s .ok).1.heap.cls = s.heap.cls := by
-  obtain ⟨rr, ty, val, tb⟩ := c
+  obtain ⟨rr, ty, val, tb, sk⟩ := c
   simp only at hfl hv
   subst hfl hv
   refine ⟨?_, ?_, ?_, ?_, ?_, ?_, ?_⟩
@@ -235,7 +290,7 @@ theorem sre_reraises_same (fl : Bool) (body : Body) (c : Sre) (s : St) (e₀ : E
   have inv := sre_saved_invariant body (enter (Sre.init fl) s) s hd
   rw [lemma_enter_active fl s e₀ hact] at inv hok hfl
   simp only at inv
-  have key := sre_exit_reraises_saved .scen _ (exec body ⟨fl, some (s.heap.cls e₀), some e₀, s.heap.tb e₀⟩ s).st
+  have key := sre_exit_reraises_saved .scen _ (exec body ⟨fl, some (s.heap.cls e₀), some e₀, s.heap.tb e₀, .scenario⟩ s).st
     e₀ hfl inv.2.1
   rw [inv.2.2] at key
   simp only [exec, lemma_enter_active fl s e₀ hact, hok]
@@ -260,7 +315,8 @@ theorem sre_body_raise_propagates (fl : Bool) (body : Body) (c : Sre) (s : St) (
     (exec (.nest fl body) c s).ctx = c ∧
     (exec (.nest fl body) c s).st.log = (exec body (enter (Sre.init fl) s) s).st.log ++
       (if (exec body (enter (Sre.init fl) s) s).ctx.reraise
-       then [⟨(exec body (enter (Sre.init fl) s) s).ctx.value, (exec body (enter (Sre.init fl) s) s).ctx.tb⟩]
+       then [⟨(exec body (enter (Sre.init fl) s) s).ctx.value, (exec body (enter (Sre.init fl) s) s).ctx.tb,
+              (exec body (enter (Sre.init fl) s) s).ctx.sink⟩]
        else []) := by
   simp only [exec, exitSre, hr]
   cases (exec body (enter (Sre.init fl) s) s).ctx.reraise <;> simp
@@ -271,9 +327,9 @@ theorem sre_body_raise_logs_original (fl : Bool) (body : Body) (c : Sre) (s : St
     (hact : s.active = some e₀) (hd : body.direct = false)
     (hr : (exec body (enter (Sre.init fl) s) s).out = .raised e') :
     (exec (.nest fl body) c s).st.log = (exec body (enter (Sre.init fl) s) s).st.log ++
-      (if (exec body (enter (Sre.init fl) s) s).ctx.reraise then [⟨some e₀, s.heap.tb e₀⟩] else []) := by
+      (if (exec body (enter (Sre.init fl) s) s).ctx.reraise then [⟨some e₀, s.heap.tb e₀, .scenario⟩] else []) := by
   have inv := sre_saved_invariant body (enter (Sre.init fl) s) s hd
-  rw [(sre_body_raise_propagates fl body c s e' hr).2.2.2.2, inv.2.1, inv.2.2,
+  rw [(sre_body_raise_propagates fl body c s e' hr).2.2.2.2, inv.2.1, inv.2.2, exec_logger_kept,
       lemma_enter_active fl s e₀ hact]
 
 /-! ### capture / force_reraise called directly -/
@@ -308,7 +364,7 @@ theorem sre_force_raises_saved (caught : Bool) (c : Sre) (s : St) (v : ExcId) (h
     (exec (.forceReraise caught) c s).st.heap.tb v = [.scen, .sreForce] ++ c.tb ∧
     (exec (.forceReraise caught) c s).ctx.value = none ∧
     (exec (.forceReraise caught) c s).ctx.type_ = c.type_ := by
-  obtain ⟨rr, ty, val, tb⟩ := c
+  obtain ⟨rr, ty, val, tb, sk⟩ := c
   simp only at hv
   subst hv
   simp only [exec, force, raiseSaved]
@@ -349,7 +405,7 @@ theorem sre_exit_off_keeps_saved (f : Frame) (c : Sre) (s : St) :
 theorem sre_exit_on_clears_value (c : Sre) (s : St) (v : ExcId)
     (hfl : c.reraise = true) (hv : c.value = some v) :
     (exitCtx c s .ok).value = none ∧ (exitCtx c s .ok).tb = [] ∧ (exitCtx c s .ok).type_ = c.type_ := by
-  obtain ⟨rr, ty, val, tb⟩ := c
+  obtain ⟨rr, ty, val, tb, sk⟩ := c
   simp only at hfl hv
   subst hfl hv
   simp [exitCtx, force, raiseSaved]
@@ -461,12 +517,13 @@ theorem sre_reuse_body_raise_logs_current (body : Body) (c : Sre) (s : St) (e₀
     (hr : (exec body (enter c s) s).out = .raised e') :
     (exec (.enterCur body) c s).out = .raised e' ∧
     (exec (.enterCur body) c s).st.log = (exec body (enter c s) s).st.log ++
-      (if (exec body (enter c s) s).ctx.reraise then [⟨some e₀, s.heap.tb e₀⟩] else []) := by
+      (if (exec body (enter c s) s).ctx.reraise then [⟨some e₀, s.heap.tb e₀, c.sink⟩] else []) := by
   have inv := sre_saved_invariant body (enter c s) s hd
   have hen := lemma_enter_active_any c s e₀ hact
   have hv : (exec body (enter c s) s).ctx.value = some e₀ := by rw [inv.2.1, hen]
   have ht : (exec body (enter c s) s).ctx.tb = s.heap.tb e₀ := by rw [inv.2.2, hen]
-  simp only [exec, exitSre, hr, hv, ht]
+  have hs : (exec body (enter c s) s).ctx.sink = c.sink := by rw [exec_logger_kept, lemma_enter_sink]
+  simp only [exec, exitSre, hr, hv, ht, hs]
   cases (exec body (enter c s) s).ctx.reraise <;> simp
 
 /-! ### outside the class of N1 nothing is invented -/
@@ -532,7 +589,7 @@ theorem lemma_enter_sound (fl : Bool) (s : St) : (enter (Sre.init fl) s).sound :
   lemma_enter_sound_any _ s
 
 theorem lemma_force_ext (c : Sre) (s : St) (hc : c.sound) : Heap.ext s.heap (force c s).1.heap := by
-  obtain ⟨rr, ty, v, tb⟩ := c
+  obtain ⟨rr, ty, v, tb, sk⟩ := c
   cases v with
   | some v =>
     simp only [force, raiseSaved]
@@ -601,11 +658,11 @@ theorem lemma_rpoeExit (rm : RemoveFn) (e : ExcId) (s : St) :
     generalize callRemove rm s2 = cr at hrm ⊢
     have h33 : Heap.ext cr.1.heap (removeOut cr.1 cr.2).heap := by
       cases cr.2 <;> exact lemma_ext_same _ _ rfl rfl
-    have hex := lemma_exitSre_ext .rpoeGen (enter (Sre.init true) s2) (removeOut cr.1 cr.2) cr.2
-      (lemma_enter_sound true s2)
-    have hne := lemma_exitSre_raises .rpoeGen (enter (Sre.init true) s2) (removeOut cr.1 cr.2) cr.2
-      (lemma_enter_reraise true s2)
-    generalize exitSre .rpoeGen (enter (Sre.init true) s2) (removeOut cr.1 cr.2) cr.2 = ex at hex hne ⊢
+    have hex := lemma_exitSre_ext .rpoeGen (enter (Sre.init true .library) s2) (removeOut cr.1 cr.2) cr.2
+      (lemma_enter_sound_any (Sre.init true .library) s2)
+    have hne := lemma_exitSre_raises .rpoeGen (enter (Sre.init true .library) s2) (removeOut cr.1 cr.2) cr.2
+      (lemma_enter_reraise_any (Sre.init true .library) s2)
+    generalize exitSre .rpoeGen (enter (Sre.init true .library) s2) (removeOut cr.1 cr.2) cr.2 = ex at hex hne ⊢
     obtain ⟨s4, out⟩ := ex
     simp only at hex hne ⊢
     cases out with
@@ -874,7 +931,7 @@ theorem lemma_raiseSaved_kept (v : ExcId) (c : Sre) (s : St) : Heap.kept s.heap 
   apply lemma_kept_same <;> (split <;> rfl)
 
 theorem lemma_force_kept (c : Sre) (s : St) : Heap.kept s.heap (force c s).1.heap := by
-  obtain ⟨rr, ty, v, tb⟩ := c
+  obtain ⟨rr, ty, v, tb, sk⟩ := c
   cases v with
   | some v => simp only [force]; exact lemma_raiseSaved_kept v _ s
   | none =>
@@ -933,8 +990,8 @@ theorem lemma_rpoeExit_kept (rm : RemoveFn) (e : ExcId) (s : St) :
     generalize callRemove rm s2 = cr at hrm ⊢
     have h33 : Heap.kept cr.1.heap (removeOut cr.1 cr.2).heap := by
       cases cr.2 <;> exact lemma_kept_same _ _ rfl rfl rfl rfl
-    have hex := lemma_exitSre_kept .rpoeGen (enter (Sre.init true) s2) (removeOut cr.1 cr.2) cr.2
-    generalize exitSre .rpoeGen (enter (Sre.init true) s2) (removeOut cr.1 cr.2) cr.2 = ex at hex ⊢
+    have hex := lemma_exitSre_kept .rpoeGen (enter (Sre.init true .library) s2) (removeOut cr.1 cr.2) cr.2
+    generalize exitSre .rpoeGen (enter (Sre.init true .library) s2) (removeOut cr.1 cr.2) cr.2 = ex at hex ⊢
     obtain ⟨s4, out⟩ := ex
     simp only at hex ⊢
     have h04 := lemma_kept_trans h12 (lemma_kept_trans hrm (lemma_kept_trans h33 hex))
@@ -1207,7 +1264,9 @@ theorem rpoe_removes_then_reraises (rm : RemoveFn) (body : Body) (c : Sre) (s : 
       excInfo := e :: ((exec body c s).st.through e .rpoeGen).excInfo } : St) = s2
   have hpath : s2.path = (exec body c s).st.path := by subst hs2; rfl
   have hact : s2.active = some e := by subst hs2; rfl
-  have hen := lemma_enter_active true s2 e hact
+  have hen : enter (Sre.init true .library) s2 =
+      ⟨true, some (s2.heap.cls e), some e, s2.heap.tb e, .library⟩ := by
+    rw [lemma_enter_active_any _ s2 e hact]; rfl
   have htb : s2.heap.tb e = .rpoeGen :: (exec body c s).st.heap.tb e := by
     subst hs2; simp [St.through, Heap.through, Heap.setTb]
   have hoth : ∀ i, i ≠ e → s2.heap.tb i = (exec body c s).st.heap.tb i := by
@@ -1236,8 +1295,8 @@ theorem rpoe_removes_then_reraises (rm : RemoveFn) (body : Body) (c : Sre) (s : 
   obtain ⟨rfl, hh, hl, hp⟩ := hrem
   simp only [removeOut, hen]
   have key := sre_exit_reraises_saved .rpoeGen
-    ⟨true, some (s2.heap.cls e), some e, s2.heap.tb e⟩ s3 e rfl rfl
-  generalize exitSre .rpoeGen ⟨true, some (s2.heap.cls e), some e, s2.heap.tb e⟩ s3 .ok = ex at key ⊢
+    ⟨true, some (s2.heap.cls e), some e, s2.heap.tb e, .library⟩ s3 e rfl rfl
+  generalize exitSre .rpoeGen ⟨true, some (s2.heap.cls e), some e, s2.heap.tb e, .library⟩ s3 .ok = ex at key ⊢
   obtain ⟨s4, o4⟩ := ex
   simp only at key
   obtain ⟨rfl, k1, k2, k3, k4, k5, k6⟩ := key
@@ -1261,7 +1320,7 @@ theorem rpoe_directory_remove_fails (rm : RemoveFn) (body : Body) (c : Sre) (s :
     (exec (.rpoe rm body) c s).out = .raised (exec body c s).st.heap.next ∧
     (exec (.rpoe rm body) c s).st.heap.cls (exec body c s).st.heap.next = .osError ∧
     (exec (.rpoe rm body) c s).st.log =
-      (exec body c s).st.log ++ [⟨some e, .rpoeGen :: (exec body c s).st.heap.tb e⟩] ∧
+      (exec body c s).st.log ++ [⟨some e, .rpoeGen :: (exec body c s).st.heap.tb e, .library⟩] ∧
     (exec (.rpoe rm body) c s).st.path = .dir := by
   have hcls : ((exec body c s).st.through e .rpoeGen).heap.cls e = (exec body c s).st.heap.cls e := rfl
   have hne : (exec body c s).st.heap.next ≠ e := fun h => by rw [h] at he; exact Nat.lt_irrefl _ he
@@ -1277,7 +1336,7 @@ theorem rpoe_remove_failure_propagates (body : Body) (c : Sre) (s : St) (e x : E
     (hex : ((exec body c s).st.heap.cls e).isExc = true) (hx : x ≠ e) :
     (exec (.rpoe (.raises x) body) c s).out = .raised x ∧
     (exec (.rpoe (.raises x) body) c s).st.log =
-      (exec body c s).st.log ++ [⟨some e, .rpoeGen :: (exec body c s).st.heap.tb e⟩] ∧
+      (exec body c s).st.log ++ [⟨some e, .rpoeGen :: (exec body c s).st.heap.tb e, .library⟩] ∧
     (exec (.rpoe (.raises x) body) c s).st.path = (exec body c s).st.path := by
   have hcls : ((exec body c s).st.through e .rpoeGen).heap.cls e = (exec body c s).st.heap.cls e := rfl
   simp only [exec, hr, rpoeExit, hcls, hex, if_true]
@@ -1357,7 +1416,7 @@ example :
 example :
     (exec (.seq (.raiseCatch 0) (.raiseNew 1)) (enter (Sre.init true) demoHandling) demoHandling).out = .raised 1 ∧
     (exec (.nest true (.seq (.raiseCatch 0) (.raiseNew 1))) (Sre.init true) demoHandling).st.log
-      = [⟨some 0, [.scen, .prior 1, .prior 0]⟩] ∧
+      = [⟨some 0, [.scen, .prior 1, .prior 0], .scenario⟩] ∧
     (exec (.nest false (.seq (.raiseCatch 0) (.raiseNew 1))) (Sre.init true) demoHandling).st.log = [] := by
   decide
 
@@ -1396,7 +1455,7 @@ example :
       = 3 ∧
     (run true (.seq (.handle 0 (.enterCur (.setReraise false))) (.handle 1 (.enterCur .nop))) demoState).out = .ok ∧
     (run true (.seq (.swallow (.handle 0 (.enterCur .nop))) (.handle 1 (.enterCur (.raiseNew 2)))) demoState).st.log
-      = [⟨some 1, [.scen]⟩] := by
+      = [⟨some 1, [.scen], .scenario⟩] := by
   decide
 
 -- sre_capture_nothing_active / sre_force_raises_saved
